@@ -66,6 +66,35 @@ class _Global(ast.NodeTransformer):
                 out.extend(st)
             elif st is not None:
                 out.append(st)
+        # G7: `a, b = x, y` -> `a = x`; `b = y` (no target occurs on the right-hand side)
+        split: list[ast.stmt] = []
+        for st in out:
+            if isinstance(st, ast.Assign) and len(st.targets) == 1 and isinstance(st.targets[0], ast.Tuple) and isinstance(st.value, ast.Tuple) \
+                    and len(st.targets[0].elts) == len(st.value.elts) and all(isinstance(t, ast.Name) for t in st.targets[0].elts):
+                tnames = {t.id for t in st.targets[0].elts}
+                rnames = {x.id for x in ast.walk(st.value) if isinstance(x, ast.Name)}
+                if not (tnames & rnames) and not any(isinstance(x, ast.Call) for x in ast.walk(st.value)):
+                    for t, v in zip(st.targets[0].elts, st.value.elts):
+                        split.append(ast.copy_location(ast.Assign(targets=[t], value=v), st))
+                    continue
+            split.append(st)
+        out = split
+        # G5: `if t: X; continue` followed by the rest of a loop body -> `if t: X else: rest` (only when called for a loop body, see visit_For/While)
+        if getattr(self, "_in_loop_body", False):
+            for i, st in enumerate(out):
+                if isinstance(st, ast.If) and not st.orelse and st.body and isinstance(st.body[-1], ast.Continue) and i + 1 < len(out) \
+                        and not any(isinstance(x, (ast.Continue, ast.Break)) for s_ in st.body[:-1] for x in ast.walk(s_)):
+                    rest = out[i + 1:]
+                    st.body = st.body[:-1] or [ast.copy_location(ast.Pass(), st)]
+                    st.orelse = self._g5(rest)
+                    out = out[:i + 1]
+                    break
+        # G6: `if not c: X else: Y` -> `if c: Y else: X`
+        for st in out:
+            if isinstance(st, ast.If) and st.orelse and isinstance(st.test, ast.UnaryOp) and isinstance(st.test.op, ast.Not) \
+                    and not (len(st.orelse) == 1 and isinstance(st.orelse[0], ast.If)):
+                st.test = st.test.operand
+                st.body, st.orelse = st.orelse, st.body
         # G2: else after an exiting body is hoisted
         res: list[ast.stmt] = []
         i = 0
@@ -81,6 +110,34 @@ class _Global(ast.NodeTransformer):
             i += 1
         return res
 
+    def _g5(self, rest: list[ast.stmt]) -> list[ast.stmt]:
+        for i, st in enumerate(rest):
+            if isinstance(st, ast.If) and not st.orelse and st.body and isinstance(st.body[-1], ast.Continue) and i + 1 < len(rest) \
+                    and not any(isinstance(x, (ast.Continue, ast.Break)) for s_ in st.body[:-1] for x in ast.walk(s_)):
+                st.body = st.body[:-1] or [ast.copy_location(ast.Pass(), st)]
+                st.orelse = self._g5(rest[i + 1:])
+                return rest[:i + 1]
+        return rest
+
+    def _loop(self, node):
+        # the body of a loop: a trailing `continue` is redundant, and guard clauses ending in `continue` become if/else
+        prev = getattr(self, "_in_loop_body", False)
+        self._in_loop_body = True
+        body = self._block(node.body)
+        self._in_loop_body = prev
+        while body and isinstance(body[-1], ast.Continue) and len(body) > 1:
+            body = body[:-1]
+        node.body = body
+        if node.orelse:
+            node.orelse = self._block(node.orelse)
+        return node
+
+    def visit_For(self, node):
+        return self._loop(node)
+
+    def visit_While(self, node):
+        return self._loop(node)
+
     def _block_no_visit(self, body):
         res = []
         for st in body:
@@ -94,6 +151,16 @@ class _Global(ast.NodeTransformer):
         return res
 
     def generic_visit(self, node):
+        if not isinstance(node, (ast.For, ast.While)):
+            prev = getattr(self, "_in_loop_body", False)
+            self._in_loop_body = False
+            try:
+                return self._generic(node)
+            finally:
+                self._in_loop_body = prev
+        return self._generic(node)
+
+    def _generic(self, node):
         for fld in ("body", "orelse", "finalbody"):
             v = getattr(node, fld, None)
             if isinstance(v, list) and v and isinstance(v[0], ast.stmt):
@@ -179,6 +246,53 @@ def local_names(fn: ast.FunctionDef) -> list[str]:
 
 def _stores(fn: ast.FunctionDef, name: str) -> list[ast.AST]:
     return [n for n in _walk_fn(fn) if isinstance(n, ast.Name) and n.id == name and isinstance(n.ctx, (ast.Store, ast.Del))]
+
+
+def _element_stored_only(fn: ast.FunctionDef) -> set[str]:
+    "names whose only 'mutation' is element / attribute assignment (x[i] = v, x.a = v): their shape, length and identity are stable"
+    MUT = {"append", "extend", "insert", "pop", "remove", "clear", "update", "setdefault", "sort", "reverse", "discard", "add", "popitem", "shuffle"}
+    stored, other = set(), set()
+    counts: dict[str, int] = {}
+    for n in _walk_fn(fn):
+        if isinstance(n, ast.Name) and isinstance(n.ctx, ast.Store):
+            counts[n.id] = counts.get(n.id, 0) + 1
+        if isinstance(n, ast.AugAssign):
+            t = n.target
+            if isinstance(t, ast.Name):
+                other.add(t.id)
+        if isinstance(n, (ast.Assign, ast.AnnAssign, ast.AugAssign)):
+            tg = n.targets if isinstance(n, ast.Assign) else [n.target]
+            for t in tg:
+                for tt in (t.elts if isinstance(t, (ast.Tuple, ast.List)) else [t]):
+                    if isinstance(tt, (ast.Attribute, ast.Subscript)):
+                        b = tt
+                        while isinstance(b, (ast.Attribute, ast.Subscript)):
+                            b = b.value
+                        if isinstance(b, ast.Name):
+                            stored.add(b.id)
+        if isinstance(n, ast.Call) and isinstance(n.func, ast.Attribute) and n.func.attr in MUT:
+            b = n.func.value
+            while isinstance(b, (ast.Attribute, ast.Subscript)):
+                b = b.value
+            if isinstance(b, ast.Name):
+                other.add(b.id)
+        if isinstance(n, (ast.For, ast.comprehension)):
+            for t in ast.walk(n.target):
+                if isinstance(t, ast.Name):
+                    other.add(t.id)
+    other |= {k for k, v in counts.items() if v > 1}
+    return stored - other
+
+
+def _shape_reads_only(rhs: ast.AST, names: set[str]) -> bool:
+    "every occurrence of one of `names` in rhs is under `.shape` / `.dtype` / `.ndim` / len(...)"
+    ok_ids = set()
+    for n in ast.walk(rhs):
+        if isinstance(n, ast.Attribute) and n.attr in ("shape", "dtype", "ndim", "size") and isinstance(n.value, ast.Name):
+            ok_ids.add(id(n.value))
+        if isinstance(n, ast.Call) and isinstance(n.func, ast.Name) and n.func.id == "len" and n.args and isinstance(n.args[0], ast.Name):
+            ok_ids.add(id(n.args[0]))
+    return all(id(n) in ok_ids for n in ast.walk(rhs) if isinstance(n, ast.Name) and n.id in names)
 
 
 def _mutated_names(fn: ast.FunctionDef) -> set[str]:
@@ -324,7 +438,10 @@ def _propagate_new_locals(fn: ast.FunctionDef, ref_locals: list[str], log: list[
             if not _is_pure(rhs):
                 continue
             used = {x.id for x in ast.walk(rhs) if isinstance(x, ast.Name)}
-            if used & mutated or name in used:
+            if name in used:
+                continue
+            clash = used & mutated
+            if clash and not (clash <= _element_stored_only(fn) and _shape_reads_only(rhs, clash)):
                 continue
             # every use must come after the definition in the same or a nested block (definition dominates uses): require the
             # definition to sit in the function's top-level body or in the block that contains all uses
